@@ -13,7 +13,8 @@ EPS = Fr(1, 2 ** 52)
 RULE = ('polynomial structures reachable from the two parsers, each with a source string that the real parser must turn '
         'into exactly that structure: univariate dense (any alphabetic letter, repeated powers, constants, empty input) and '
         'multivariate term lists (constant, one letter with non-negative / negative / fractional exponents, 2-4 letters, '
-        'a letter repeated inside a term, explicit ^0, empty input) x chains of 1-3 operations starting with a derivative '
+        'a letter repeated inside a term, explicit ^0, empty input), plus a deterministic class at the extreme degrees the '
+        'univariate parser accepts (x^65535, 3x^65535 - x^65534 + 1, 2x^65534 + x: structure only, coefficient by coefficient) x chains of 1-3 operations starting with a derivative '
         '(derivate_univariate, derivate_multivariate by a present / absent / multi-letter / empty name, then any of the four '
         'derive/integrate entry points) x final evaluation (eval_univariate at points, eval_multivariate with complete, '
         'redundant or incomplete bindings); distinct = distinct case line; non-trivial = at least one term with a variable')
@@ -128,7 +129,7 @@ def parse_case(case):
     elif fin == 'ai':
         final = ('ai', [r.f(), r.f(), r.f()])
     else:
-        final = ('none', None)
+        final = ('np' if fin == 'np' else 'none', None)
     res = (st, src, ops, final)
     if len(_CACHE) > 200000:
         _CACHE.clear()
@@ -554,7 +555,31 @@ def f_of(fr):
     return v
 
 
+MAX_POWER = 65535          # spindalis_core::polynomials::simple::MAX_POWER: the largest exponent parse_simple_polynomial accepts
+
+
+def extreme_cases(flavour):
+    """deterministic: the extreme degrees the univariate parser can produce (dense vectors of 65535 / 65536 coefficients,
+    about 1 MB per line).  Final action 'np': structure only.  Judged coefficient by coefficient."""
+    def vec(terms):
+        cs = [0.0] * (max(p for _, p in terms) + 1)
+        for c, p in terms:
+            cs[p] += c
+        return cs
+    top, below = MAX_POWER, MAX_POWER - 1
+    cases = [('x^%d' % top, [(1.0, top)], [('du', None)]),
+             ('3x^%d - x^%d + 1' % (top, below), [(3.0, top), (-1.0, below), (1.0, 0)], [('dm', 'x')]),
+             ('2x^%d + x' % below, [(2.0, below), (1.0, 1)], [('iu', None)]),
+             ('3x^%d - x^%d + 1' % (top, below), [(3.0, top), (-1.0, below), (1.0, 0)], [('iu', None), ('du', None)])]
+    if flavour == 'integ':
+        cases = cases[2:]
+    for src, terms, ops in cases:
+        line = 's %s %s %s np' % (enc_simple(vec(terms), 'x')[2:], cps(src), enc_ops(ops))
+        yield Case(line, 'simple/extreme_degree', None)
+
+
 def gen_cases(rng, tier, flavour):
+    yield from extreme_cases(flavour)
     n_s = 800 if tier == 'quick' else 8000
     n_i = 2400 if tier == 'quick' else 24000
     for _ in range(n_s):
@@ -809,7 +834,7 @@ def judge_simple(st, src, ops, final, res):
         return 'wrong kind of polynomial returned'
     if rvar != st[2]:
         return 'the variable of the result is not the variable of the source'
-    if u != ['ok', 'ok', 'ok']:
+    if final[0] != 'np' and u != ['ok', 'ok', 'ok']:
         return 'result is refused by a univariate entry point: ' + ' '.join(u)
     rcs = [Fr(c) for c in rcoefs]
     if any(math.isinf(c) or c != c for c in rcoefs):
@@ -817,6 +842,17 @@ def judge_simple(st, src, ops, final, res):
     depth = max(1, len(ops))
 
     def structure(cs, last):
+        if max(len(cs), len(rcs)) > 2000:
+            # dense vectors determine the polynomial: compare coefficient by coefficient (exact for integers)
+            n = max(len(cs), len(rcs))
+            for k in range(n):
+                w = cs[k] if k < len(cs) else Fr(0)
+                g = rcs[k] if k < len(rcs) else Fr(0)
+                if w != g and abs(w - g) > abs(w) * depth * 2 * EPS:
+                    return 'coefficient %d of the result is not the exact coefficient of the %s' % (k, 'derivative' if last == 'd' else 'result of the chain')
+            if last == 'i' and (not rcs or rcs[0] != 0):
+                return 'constant of integration is not zero'
+            return None
         for x in (Fr(0), Fr(1), Fr(-1), Fr(3, 2), Fr(-5, 4), Fr(2), Fr(1, 3), Fr(-7, 3)):
             want, got = s_eval(cs, x), s_eval(rcs, x)
             tol = (sum(abs(c) * abs(x) ** i for i, c in enumerate(cs)) + sum(abs(c) * abs(x) ** i for i, c in enumerate(rcs))) * depth * 2 * EPS
@@ -831,7 +867,7 @@ def judge_simple(st, src, ops, final, res):
     if all(verdicts):
         return verdicts[-1]
     kind, arg = final
-    if kind == 'none':
+    if kind in ('none', 'np'):
         return None
     if kind in ('eu', 'em'):
         if kind == 'eu':
@@ -959,3 +995,111 @@ def describe(case):
     return {'type': 'SimplePolynomial' if st[0] == 's' else 'IntermediatePolynomial', 'source': src,
             'operations': [o if n is None else '%s(%r)' % (o, n) for o, n in ops],
             'final': final[0], 'final_args': [str(x)[:60] for x in (final[1] or [])][:4]}
+
+
+# ---- extraction cross-check: the same cases evaluated inside Coq by vm_compute  (shared with c04.py)
+# The driver ocaml/c03.ml applies a chain of operations to the polynomial, then prints the resulting structure, three
+# 'does it work' probes (U) and a list of values (E); any Err in the chain ends the line with 'err K', any Panic
+# anywhere makes the whole line 'panic'.  The Coq term below does the same with the same instances as P03.v / P04.v.
+from tools import xenc
+COQ_IMPORTS = 'Base.XEnc Model.Poly Model.Definite'
+XCHECK_N = 200
+
+
+def _x_env(t):
+    b = []
+    for _ in range(t.int()):
+        nm = t.cpstr()
+        b.append('(%s, %s%%float)' % (xenc.cq_str(nm), xenc.coq_float(t.fl())))
+    return '[%s]' % '; '.join(b)
+
+
+def coq_term(case):
+    if not xenc.keep(case, 22):
+        return None
+    t = xenc.Toks(case.line)
+    ty = t.word()
+    if ty == 's':
+        v = t.word()
+        cs = t.fvec()
+        if len(cs) > 2000:
+            return None
+        p0 = '{| s_coefs := %s; s_var := %s |}' % (xenc.cq_floats(cs), 'None' if v == '-' else 'Some %d%%N' % int(v))
+        encp = xenc.CQ_ENC_SPOLY
+    elif ty == 'i':
+        p0 = xenc.cq_ipoly_rec(t)
+        # the driver's show_i has no '|' separator, the integer encoding is the same as for the parsers' output
+        encp = xenc.CQ_ENC_IPOLY
+    else:
+        return None
+    t.cpstr()                                            # the source text is used by the Rust side only
+    fn = lambda name: '(@%s_%s float FNum)' % (ty, name)
+    chain = 'Ok p'
+    ops = []
+    for _ in range(t.int()):
+        w = t.word()
+        if w == 'du':
+            ops.append('%s p' % fn('derivate_univariate'))
+        elif w == 'iu':
+            ops.append('%s p' % fn('integral_univariate'))
+        elif w == 'dm':
+            ops.append('Ok (%s p %s)' % (fn('derivate_multivariate'), xenc.cq_str(t.cpstr())))
+        elif w == 'im':
+            ops.append('Ok (%s p %s)' % (fn('integral_multivariate'), xenc.cq_str(t.cpstr())))
+        else:
+            return None
+    for o in reversed(ops):
+        chain = 'bind (%s) (fun p => %s)' % (o, chain)
+    fin = t.word()
+    F = lambda x: xenc.coq_float(x) + '%float'
+    if fin == 'none':
+        vals = []
+    elif fin == 'eu':
+        vals = ['%s p %s' % (fn('eval_univariate'), F(x)) for x in t.fvec()]
+    elif fin == 'em':
+        vals = ['%s p %s' % (fn('eval_multivariate'), _x_env(t)) for _ in range(t.int())]
+    elif fin == 'ai':
+        a, b, c = F(t.fl()), F(t.fl()), F(t.fl())
+        vals = ['%s p %s %s' % (fn('analytical_integral'), lo, hi) for lo, hi in ((a, b), (a, c), (c, b), (b, a))]
+    else:
+        return None
+    return ('(let okerr := fun (A : Type) (r : res A) => enc_res (fun _ => []) r in '
+            'match (fun p => %s) %s with '
+            '| Ok p => let parts := [okerr _ (%s p 0x1p-1%%float); okerr _ (%s p); okerr _ (%s p)] ++ map (enc_res enc_float) [%s] in '
+            'if existsb (fun l => match l with [2] => true | _ => false end) parts then [2] else 0 :: %s p ++ concat parts '
+            '| Err e => [1; err_code e] | Panic _ => [2] end)'
+            % (chain, p0, fn('eval_univariate'), fn('derivate_univariate'), fn('integral_univariate'), '; '.join(vals), encp))
+
+
+def encode_result(case, model_line):
+    t = model_line.split()
+    if t[0] == 'panic':
+        return [2]
+    if t[0] == 'err':
+        return [1, xenc.err_code(t[1])]
+    if t[0] != 'P':
+        return [-99]
+    u = t.index('U')
+    body = t[2:u]
+    if t[1] == 'S':
+        out = [0] + xenc.enc_spoly_toks(body)
+    else:
+        # I nt {coef nv {cps e}} nvars {cps}: re-insert the '|' that show_inter of the parser drivers prints
+        k = [0]
+
+        def nxt():
+            k[0] += 1
+            return body[k[0] - 1]
+        for _ in range(int(nxt())):
+            nxt()
+            for _ in range(int(nxt())):
+                for _ in range(int(nxt())):
+                    nxt()
+                nxt()
+        out = [0] + xenc.enc_ipoly_toks(body[:k[0]] + ['|'] + body[k[0]:])
+    assert t[u + 4] == 'E', model_line
+    for x in t[u + 1:u + 4]:
+        out += [0] if x == 'ok' else [1, xenc.err_code(x[4:])]
+    for x in t[u + 5:]:
+        out += xenc.res_tok(x)
+    return out
